@@ -73,7 +73,8 @@ def gen_filters(rng, v, subset):
         if tp and r < hit:
             f['name'] = v.rps[tp]['name']
         elif r < 0.9:
-            f['name'] = rng.choice([v.rps[u]['name'] for u in rps] + ['nobody', 'P1']) if rps else 'nobody'
+            names = [v.rps[u]['name'] for u in rps]
+            f['name'] = rng.choice(names + [n.strip() for n in names] + [' ' + n.strip() for n in names] + ['nobody', 'P1']) if rps else 'nobody'
         else:
             f['name'] = ''
     if 'uuid' in subset:
